@@ -380,6 +380,10 @@ def _worker(arg):
         obs, info = check_network(cid, e)
     except Undecided as ex:
         return cid, [('symbolic-execution', 'undecided', time.time() - t, str(ex), None)], {}
+    except (TypeError, AttributeError, ValueError, IndexError, KeyError, ArithmeticError, AssertionError, NotImplementedError) as ex:
+        # the code under symbolic values took a step the exact scalars cannot follow (an assertion or a comparison on a symbolic value, a
+        # numpy entry point without a symbolic counterpart): the identities are not decided on this text -- never a verdict
+        return cid, [('symbolic-execution', 'undecided', time.time() - t, 'symbolic execution left the supported path: %s: %s' % (type(ex).__name__, str(ex)[:200]), None)], {}
     out = []
     for (name, status, secs, detail) in obs:
         wit = None
